@@ -414,8 +414,8 @@ def run(ctx, idx):
     ok = bool(true_sets)
     why = "version flag never set"
     pp0 = pcls.methods.get("p_program")
-    if not setters and pp0 is not None:
-        # no parser state at all: the version is read off the parsed commands. A command has no result name exactly when the
+    if not [1 for m_, n_ in setters if m_.name.startswith("p_")] and pp0 is not None:
+        # no grammar action keeps state on the parser: the version is read off the parsed commands. A command has no result name exactly when the
         # result-less production built it, so "some command has no result name" is the same fact the flag recorded.
         parg0 = pp0.node.args.args[-1].arg
         verdict = None
